@@ -91,7 +91,14 @@ class Gen:
             pickv = sure if (sure and (tidy or r.random() < 0.8)) else local
             if k < 0.35 or d >= 3: els.append(self.bgp(local))
             elif k < 0.47: els.append(["optional", self.group(d + 1, inner_outer)])
-            elif k < 0.55: els.append(["minus", self.group(d + 1, inner_outer)])
+            elif k < 0.55:
+                if r.random() < 0.2:
+                    # an operand whose only variables come from a VALUES block
+                    vs = r.sample(pickv, min(len(pickv), r.choice([1, 2])))
+                    rows = [[enc(r.choice(IRIS + INTS[:3])) for _ in vs] for _ in range(r.choice([1, 2]))]
+                    els.append(["minus", ["group", [["values", vs, rows]] + ([self.bgp(vs + [self.fresh()])] if r.random() < 0.3 else [])]])
+                else:
+                    els.append(["minus", self.group(d + 1, inner_outer)])
             elif k < 0.63: els.append(["union", self.group(d + 1, inner_outer), self.group(d + 1, inner_outer)])
             elif k < 0.73: els.append(["filter", self.expr(pickv)])
             elif k < 0.79:
@@ -228,21 +235,28 @@ def sensitive_vars(n, top=True):
     t = n[0]
     if t in ("bgp", "values"): return set()
     if t == "group":
-        s = set()
+        s = set(); after_sub = False; s_after = set()
         for e in n[1]:
-            if e[0] in ("bgp", "values"): continue
+            if e[0] in ("bgp", "values"):
+                # behind a sub-select the pushed bindings are gone (its projection dropped them), so even a BGP or VALUES there is evaluated without them
+                if after_sub: s_after |= all_vars(e)
+                continue
+            if e[0] == "subselect": after_sub = True
             if e[0] == "filter": s |= expr_vars(e[1])
             elif e[0] == "bind": s |= expr_vars(e[1]) | {e[2]}
             elif e[0] in ("optional", "minus", "union", "group", "graph", "subselect"): s |= all_vars(e)
-        return s - certain(n)
+        return (s - certain(n)) | s_after
     if t == "optional":
         # the OPTIONAL's own top-level filter is its LeftJoin condition and may legitimately look left
         inner = n[1]
-        s = set()
+        s = set(); after_sub = False
         for e in inner[1]:
-            if e[0] in ("bgp", "values", "filter"): continue
+            if e[0] in ("bgp", "values", "filter"):
+                if after_sub and e[0] != "filter": s |= all_vars(e)
+                continue
+            if e[0] == "subselect": after_sub = True
             s |= all_vars(e)
-        return s - certain(inner)
+        return s - (certain(inner) if not after_sub else set())
     if t == "minus": return sensitive_vars(n[1])
     if t == "union": return sensitive_vars(n[1]) | sensitive_vars(n[2])
     if t == "graph": return ({n[1][1]} if n[1][0] == "var" else set()) | sensitive_vars(n[2])
